@@ -52,6 +52,7 @@ type Ctx struct {
 	required    map[string]int64
 	violations  []Violation
 	nviol       int64
+	vkeys       map[string]int64
 	known       map[string]string // key -> text (from KNOWN_FINDINGS.txt)
 	knownSeen   map[string]int64
 	knownFirst  map[string]Violation
@@ -101,7 +102,7 @@ func New(prop string) *Ctx {
 		classes: map[string]int64{}, dontcare: map[string]int64{}, samples: map[string][]any{},
 		hashes: map[uint64]struct{}{}, required: map[string]int64{}, known: map[string]string{},
 		knownSeen: map[string]int64{}, knownFirst: map[string]Violation{}, exhaustive: map[string]bool{},
-		extra: map[string]any{},
+		extra: map[string]any{}, vkeys: map[string]int64{},
 	}
 	c.Out = root
 	if o := os.Getenv("VERIF_OUT"); o != "" {
@@ -306,7 +307,10 @@ func (c *Ctx) fail(v Violation) {
 		return
 	}
 	c.nviol++
-	if len(c.violations) < maxWitnesses {
+	c.vkeys[v.Key]++
+	// keep the first witnesses, but at most 3 per key so that different failure
+	// classes stay visible when one class floods
+	if len(c.violations) < maxWitnesses && c.vkeys[v.Key] <= 3 {
 		c.violations = append(c.violations, v)
 		p := c.writeReplay(v)
 		if c.firstReplay == "" {
@@ -437,6 +441,7 @@ func (c *Ctx) Finish() {
 		"known_findings_observed": kf,
 		"inconclusive_reasons":    c.incon,
 		"witnesses":               c.violations,
+		"violation_keys":          c.vkeys,
 	}
 	for k, v := range c.extra {
 		cov[k] = v
@@ -468,7 +473,7 @@ func (c *Ctx) Finish() {
 			fmt.Printf("witness %d: key=%s op=%s args=%s observed=%s expected=%s reason=%s\n", i+1, v.Key, v.Op, compact(v.Args), clip(v.Observed), clip(v.Expected), v.Reason)
 		}
 		fmt.Printf("VIOLATION property=%s replay=%s\n", c.Prop, c.firstReplay)
-		fmt.Printf("violations=%d (first %d kept) events=%d\n", c.nviol, len(c.violations), c.evals)
+		fmt.Printf("violations=%d (first %d kept) events=%d keys=%v\n", c.nviol, len(c.violations), c.evals, c.vkeys)
 		code = ExitViolation
 	case len(c.incon) > 0:
 		for _, r := range c.incon {
